@@ -593,3 +593,47 @@ def inlined(ctx, fi, depth=2):
         for c in ast.iter_child_nodes(p):
             c._parent = p
     return new
+
+
+def removal_nodes(g, q, front_only=False):
+    """CFG nodes that remove an element from the list named *q*: q.pop(...), q.remove(...),
+    del q[...] (front_only: only q.pop(0) / del q[0])"""
+    out = []
+    for n in g.nodes:
+        if n.ast is None:
+            continue
+        if n.kind == 'stmt' and isinstance(n.ast, ast.Delete):
+            for t in n.ast.targets:
+                if isinstance(t, ast.Subscript) and is_name(t.value, q):
+                    if not front_only or (isinstance(t.slice, ast.Constant) and t.slice.value == 0):
+                        out.append(n.id)
+        for c in node_calls(g, n.id):
+            if isinstance(c.func, ast.Attribute) and is_name(c.func.value, q) and \
+                    c.func.attr in ('pop', 'remove', 'popleft'):
+                if not front_only or (c.func.attr in ('pop', 'popleft') and (
+                        c.func.attr == 'popleft' or (len(c.args) == 1 and
+                                                      isinstance(c.args[0], ast.Constant) and
+                                                      c.args[0].value == 0))):
+                    out.append(n.id)
+    return sorted(set(out))
+
+
+def queue_name(fi):
+    """the local list built from ordered_layers() in Runner.run_tests"""
+    for n in ast.walk(fi.node):
+        if isinstance(n, ast.Assign) and isinstance(n.targets[0], ast.Name) and \
+                'ordered_layers()' in norm(n.value):
+            return n.targets[0].id
+    return None
+
+
+def repeat_loop(ctx, fi, g):
+    """the CFG 'for' node of the --repeat loop of function run_tests: the loop whose iterable
+    derives from range(...repeat...) and that contains the test loops"""
+    assigns = local_assignments(fi.node)
+    for n in g.nodes:
+        if n.kind == 'for':
+            src = sources_of(n.ast, assigns)
+            if 'range' in src and ('options.repeat' in src or 'repeat' in src):
+                return n
+    return None
